@@ -17,13 +17,14 @@ IMPORT_FORMS = ("import-module", "import-module-alias", "from-import", "from-imp
 PKG_FORMS = ("import-package-module", "import-package-module-alias", "from-package-import-module", "from-import", "from-import-alias")
 
 # how a name declared in another file is reached, collapsed to what matters for resolution:
-#   local | from-import | from-import-alias | module-attribute (m.f with m bound by any import form) | package-attribute (pk.m.f)
+#   local | from-import | from-import-alias | module-attribute (m.f with m bound by `import m`, `import m as a`, `from pk import m`)
+#   | package-attribute (pk.m.f after `import pk.m`) | aliased-package-attribute (a.f after `import pk.m as a`)
 COLLAPSE = {
     "local": "local",
     "import-module": "module-attribute",
     "import-module-alias": "module-attribute",
     "import-package-module": "package-attribute",
-    "import-package-module-alias": "module-attribute",
+    "import-package-module-alias": "aliased-package-attribute",
     "from-package-import-module": "module-attribute",
     "from-import": "from-import",
     "from-import-alias": "from-import-alias",
@@ -35,6 +36,7 @@ ACCESS_KIND = {
     "from-import-alias": "from-import-alias",
     "module-attribute": "cross-module-import",
     "package-attribute": "cross-module-import-package",
+    "aliased-package-attribute": "cross-module-import-package-alias",
 }
 
 
@@ -144,6 +146,7 @@ class Gen:
         self.classes = []
         self.reusable = []         # completed plain functions (Func) taking one int
         self.class_forms = {}      # class name -> references ({form, file, name}) through which it was instantiated
+        self.form_cache = {}
         self.value_access = {}     # function qual -> access form through which it was taken as a value
         self.building = []
 
@@ -199,6 +202,12 @@ class Gen:
             return name, fm
         rng = self.rng
         form = rng.choice(PKG_FORMS if target.dirs else IMPORT_FORMS)
+        # a file normally binds another module / an imported name in one way; now and then it does so in a second way as well
+        ckey = (cur.idx, target.idx, name if form.startswith("from-import") else None)
+        if ckey in self.form_cache and rng.random() < 0.9:
+            form = self.form_cache[ckey]
+        else:
+            self.form_cache.setdefault(ckey, form)
         if form == "import-module":
             imp, expr = f"import {target.dotted}", f"{target.name}.{name}"
         elif form == "import-module-alias":
@@ -722,16 +731,29 @@ class Gen:
                         put_func(1, meth)
             put_body(0, m.top)
             files[m.relpath] = "\n".join(out) + "\n"
-        # names bound by `from X import N` after a plain dotted `import X` of the same module in the same file
-        shadowed_names = {}
+        # import statements that interfere with each other (the generator's knowledge of the text, nothing about the analysis):
+        #  - a name bound by `from pk.m import N` after a plain dotted `import pk.m` of the same module in the same file
+        #  - a name whose symbol (module, function, class) is imported again later in the same file under a different name
+        interference = {}
         for m in self.mods:
             dotted = set()
+            bound = {}       # symbol key -> [bound names in order]
             for imp in m.imports:
                 parts = imp.split()
-                if parts[0] == "import" and "." in parts[1] and len(parts) == 2:
-                    dotted.add(parts[1])
-                elif parts[0] == "from" and parts[1] in dotted:
-                    shadowed_names.setdefault(m.relpath, []).append(parts[-1])
+                if parts[0] == "import":
+                    sym, name = parts[1], (parts[3] if len(parts) == 4 else parts[1].split(".")[0])
+                    if "." in parts[1] and len(parts) == 2:
+                        dotted.add(parts[1])
+                else:
+                    sym, name = parts[1] + "." + parts[3], parts[-1]
+                    if parts[1] in dotted:
+                        interference.setdefault(m.relpath, {})[name] = "after-dotted-import-of-the-same-module"
+                bound.setdefault(sym, [])
+                if name not in bound[sym]:
+                    bound[sym].append(name)
+            for sym, names in bound.items():
+                for n in names[:-1]:
+                    interference.setdefault(m.relpath, {}).setdefault(n, "overwritten-by-later-import-of-the-same-symbol")
         for s_ in sites:
             s_["deps"] = [placed[id(d)] for d in s_.get("deps", []) if id(d) in placed]
         classes = {}
@@ -742,7 +764,7 @@ class Gen:
                                "base_form": c.base_form,
                                "refs": list(self.class_forms.get(c.name, ()))}
         return {"tag": self.tag, "files": files, "main": self.mods[0].dotted, "entry": entry, "sites": sites, "defs": defs,
-                "classes": classes, "value_access": dict(self.value_access), "names_after_dotted_import": shadowed_names}
+                "classes": classes, "value_access": dict(self.value_access), "import_interference": interference}
 
 
 def generate(seed, tag, **kw):
@@ -770,21 +792,20 @@ METHOD_KINDS = ("method", "self-method", "method-on-parameter-object", "method-o
 VALUE_KINDS = ("callback-parameter", "returned-function", "returned-closure", "function-in-variable", "function-in-list",
                "function-in-list-loop", "function-in-dict", "function-in-field", "function-in-field-via-self",
                "function-in-field-reassigned")
-ATTRIBUTE_FORMS = ("module-attribute", "package-attribute")
+ATTRIBUTE_FORMS = ("module-attribute", "package-attribute", "aliased-package-attribute")
 
 
-def _after_dotted(project, ref):
-    """the referenced name was bound by `from pk.m import N` *after* a plain `import pk.m` in the same file"""
-    return bool(ref) and ref.get("form") in ("from-import", "from-import-alias") and \
-        ref.get("name") in project.get("names_after_dotted_import", {}).get(ref.get("file"), ())
+def _interference(project, ref):
+    return project.get("import_interference", {}).get(ref.get("file"), {}).get(ref.get("name")) if ref else None
 
 
 def _ref_tag(project, ref, what):
     """provenance tag of one reference, or None when it is an ordinary one (local name or plain from-import)"""
     if not ref:
         return None
-    if _after_dotted(project, ref):
-        return f"{what}-from-imported-after-dotted-import-of-the-same-module"
+    r = _interference(project, ref)
+    if r:
+        return f"{what}-name-{r}"
     if ref.get("form") in ATTRIBUTE_FORMS:
         return f"{what}-named-via-{ref['form']}"
     return None
@@ -811,7 +832,7 @@ def provenance_tag(project, site, callee_qual, recv_classes, under_try, caller_c
     t = _ref_tag(project, site.get("uses"), "callee")
     if t and not (kind.startswith(("constructor", "static-method", "class-method")) or kind in ACCESS_KIND.values()):
         t = None
-    if t and site.get("uses", {}).get("form") in ATTRIBUTE_FORMS and not _after_dotted(project, site["uses"]):
+    if t and site.get("uses", {}).get("form") in ATTRIBUTE_FORMS and not _interference(project, site["uses"]):
         t = None          # plain m.f(..) / m.K(..): the access form already is the call kind
     if t:
         return t
@@ -869,6 +890,17 @@ def event_kind(project, site, callee_qual, recv_classes=(), under_try=False, cal
     classes = project["classes"]
     ctrl = (f"[{site['ctrl']}]" if site["ctrl"] == "after-try" else f"[in-{site['ctrl']}]") if site.get("ctrl") else ""
     ptag = provenance_tag(project, site, callee_qual, recv_classes, under_try, caller_cls)
+    if (site.get("uses") or {}).get("form", "local") != "local":
+        ctrl = ""                  # the access form is the kind; the control context is not refined further
+        if ptag == "under-try":
+            ptag = None
+    if ptag and ptag not in ("under-try", "receiver-class-without-constructor"):
+        # a defect in *name resolution* (imports, attribute access on modules): whatever is named that way is affected alike,
+        # so the mechanism is the tag itself, not the call kind
+        for w in ("callee-", "receiver-class-", "base-class-", "function-value-"):
+            if ptag.startswith(w + "name-"):
+                return "imported-" + ptag[len(w):]
+        return ptag
     suffix = "{" + ptag + "}" if ptag else ctrl
     if kind in METHOD_KINDS:
         recv, meth = site["recv"], site["meth"]
